@@ -1,7 +1,12 @@
 package props
 
 import (
+	"fmt"
+	"strconv"
+	"strings"
+
 	"pgregory.net/rapid"
+	"verif/internal/sb"
 
 	"verif/internal/gen"
 	m "verif/internal/model"
@@ -106,7 +111,59 @@ func init() {
 		return f
 	})
 	grid := modelSub(p, "grid", compareOpts{}, func(cs *progCase, res *m.Result) bool { return true })
+	// ordering of two strings: the language orders two strings that both spell
+	// numbers as numbers and any other two strings as strings. For strings that
+	// spell a number only up to blanks around it the readings differ between
+	// implementations; the result must be the one of some reading (as numbers,
+	// when both are numerals after trimming; as strings), in particular the
+	// common answer where the readings agree.
+	type ordCase struct {
+		A, B, Op string
+	}
+	ordering := NewSub(p, "ordering", func(c *Ctx, cs *ordCase) *Fail {
+		r := c.SB.Do(&sb.Req{Op: "exec", Env: "core", Loader: "string", Entry: "{{ (a " + cs.Op + " b) ? 'T' : 'F' }}", Ctx: map[string]sb.V{"a": {K: "str", S: cs.A}, "b": {K: "str", S: cs.B}}})
+		if r.Fatal() || r.Status == "infra" {
+			return fatalFail(r)
+		}
+		cmp := func(lt, eq bool) bool {
+			switch cs.Op {
+			case "<":
+				return lt
+			case "<=":
+				return lt || eq
+			case ">":
+				return !lt && !eq
+			}
+			return !lt
+		}
+		accept := map[string]bool{}
+		accept[map[bool]string{true: "T", false: "F"}[cmp(cs.A < cs.B, cs.A == cs.B)]] = true
+		fa, ea := strconv.ParseFloat(strings.TrimSpace(cs.A), 64)
+		fb, eb := strconv.ParseFloat(strings.TrimSpace(cs.B), 64)
+		numeric := ea == nil && eb == nil
+		if numeric {
+			accept[map[bool]string{true: "T", false: "F"}[cmp(fa < fb, fa == fb)]] = true
+		}
+		key, _ := jsonStr(cs)
+		c.Ev.Count(key, len(accept) == 1 && (cs.A != strings.TrimSpace(cs.A) || cs.B != strings.TrimSpace(cs.B)), "ordering", fmt.Sprintf("numeric:%v", numeric))
+		if r.Status != "ok" || !accept[r.Out] {
+			return &Fail{Sig: "ordering:no-reading-gives-this", Expected: fmt.Sprintf("one of %v for %q %s %q", accept, cs.A, cs.Op, cs.B), Observed: r.Status + " " + r.Out + r.Err}
+		}
+		return nil
+	})
 	p.Run = func(c *Ctx) {
+		ordPool := []string{" 7", " 3", "7 ", "3 ", "7", "3", "10", "9", " 50", "\t12", "12\n", "abc", "ab", "", " ", "b"}
+		oi := 0
+		for _, a := range ordPool {
+			for _, b := range ordPool {
+				for _, op := range []string{"<", "<=", ">", ">="} {
+					oi++
+					if c.Mine(oi) {
+						ordering.Check(c, &ordCase{A: a, B: b, Op: op})
+					}
+				}
+			}
+		}
 		runScale(c, grid, "C05")
 		// complete grid: every binary operator x every ordered pair of a value
 		// pool, every unary operator x the pool, and the conditional; values
